@@ -445,3 +445,19 @@ def gen_file(rng, lang: str, fid: str, n_units=None, dup_tags=(), layout=True):
     if final_newline:
         text += eol
     return text, plants, {"eol": "crlf" if eol == "\r\n" else "lf", "final_newline": final_newline, "kinds": [u.kind for u in units]}
+
+
+def gen_file_all(rng, lang: str, fid: str, reps: int = 3) -> str:
+    """every unit kind of the language `reps` times, in shuffled order, plain layout: a file in which each linter has several
+    findings spread over the file"""
+    ids = Ids(fid)
+    kinds = [k for k in UNITS[lang] for _ in range(reps)]
+    rng.shuffle(kinds)
+    out = []
+    if lang == "py":
+        out += ['"""Module docstring."""', "import os", ""]
+    elif lang == "rs":
+        out += ["use std::fs;", ""]
+    for fn, styles in kinds:
+        out += list(fn(rng, ids, rng.choice(styles)).lines) + [""]
+    return "\n".join(out) + "\n"
